@@ -696,9 +696,9 @@ def run(ctx):
     quick = ctx.tier == "quick"
     max_leaves = 9 if quick else 30
     max_chars = 6 if quick else 12
-    n_score = 3200 if quick else 20000
-    n_hist = 1600 if quick else 10000
-    n_final = 800 if quick else 6000
+    n_score = 2400 if quick else 20000
+    n_hist = 1200 if quick else 10000
+    n_final = 600 if quick else 6000
     runner.run_given(ctx, "score", score_cases(max_leaves, max_chars), check_score, n_score // ctx.nshards)
     runner.run_given(ctx, "history", history_cases(max_leaves, max_chars), check_history, n_hist // ctx.nshards)
     runner.run_given(ctx, "final", final_cases(max_leaves, max_chars), check_final, n_final // ctx.nshards)
